@@ -290,4 +290,11 @@ def tablePrefixOk : Table → Bool
   | [] => true
   | (_, h) :: t => handlerPrefixOk h && tablePrefixOk t
 
+/-- documented signature of a table entry: (is a method, number of arguments, returns a collection) -/
+def sigOf (t : Table) (n : String) : Option (Bool × Nat × Bool) :=
+  match t.get? n.toList with
+  | some (.spec s) => some (s.methodObject.isSome, s.args.length, s.isCollection)
+  | some .nonnull => some (false, 1, false)
+  | _ => none
+
 end FaxVerif.C11
